@@ -41,6 +41,7 @@ static void CLOSE(int fd) { close(fd); }
 static int DUP2(int a, int b) { return dup2(a, b); }
 static int DUP(int a) { return dup(a); }
 static int POLLIN_(int fd, int ms) { struct pollfd p = { fd, 0x001 /* POLLIN */, 0 }; int r = poll(&p, 1, ms); return r <= 0 ? 0 : (p.revents & 0x001); }
+static int POLLREV(int fd, int ev) { struct pollfd p = { fd, (short)ev, 0 }; int r = poll(&p, 1, 0); return r < 0 ? -1 : p.revents; }
 #undef POLLIN
 #define POLLIN(fd, ms) POLLIN_(fd, ms)
 static void UNLINK(const char *n) { char p[256]; snprintf(p, sizeof p, "%s/%s", dir, n); unlink(p); }
